@@ -583,7 +583,19 @@ def java_lit(text, I, what):
     text = text.strip()
     m = re.fullmatch(r"\((byte|short|int|long|float|double)\)\s*(-?\d+)", text)
     if m:
+        if not -2 ** 31 <= int(m.group(2)) < 2 ** 31:       # a decimal literal without suffix is an int
+            I.append("%s: integer number too large: %s" % (what, m.group(2)))
         return ["int", int(m.group(2))], m.group(1)
+    m = re.fullmatch(r"\((byte|short|int|long|float|double)\)\s*(-?\d+)L", text)
+    if m:
+        if not -2 ** 63 <= int(m.group(2)) < 2 ** 63:
+            I.append("%s: integer number too large: %sL" % (what, m.group(2)))
+        return ["int", int(m.group(2))], m.group(1)
+    m = re.fullmatch(r'\((long)\)\s*Long\.parseUnsignedLong\("(\d+)"\)', text)
+    if m:
+        if int(m.group(2)) >= 2 ** 64:
+            I.append("%s: parseUnsignedLong(%s) throws NumberFormatException" % (what, m.group(2)))
+        return ["int", int(m.group(2))], "long"
     m = re.fullmatch(r"(-?\d+)L", text)
     if m:
         return ["int", int(m.group(1))], "long"
